@@ -51,7 +51,21 @@ def _enc(fr, unit_bits, enc):
     return [1 if n < 0 else 0, bits(abs(n))]
 
 
+_OBJECTS = {}
+
+
 def get_downscaler(method, outside, itype="image"):
+    """One downscaler OBJECT per (method, outside value, info type) and run: the
+    object is then used for many arrays of different data types and shapes, as a
+    process that converts several datasets does (downscalers are documented as
+    plain strategy objects)."""
+    key = (method, repr(outside), itype)
+    if key not in _OBJECTS:
+        _OBJECTS[key] = _new_downscaler(method, outside, itype)
+    return _OBJECTS[key]
+
+
+def _new_downscaler(method, outside, itype="image"):
     """method "auto": the selection path of the command-line tools -
     get_downscaler("auto", info, options) with the info's type attribute and
     the options dictionary carrying the outside value (as vars(args) does)."""
